@@ -38,6 +38,8 @@ def explore(
     """
     rng = random.Random(ctx.seed)
     seen = set()
+    canon_keys = set()
+    viol_sigs = set()
     model_keys = set()
     stats = {"states": 0, "transitions": 0, "levels": [], "capped": False, "max_depth_completed": -1}
     frontier = [dict(h, _d=0) for h in seeds]
@@ -59,7 +61,9 @@ def explore(
             ctx.outcomes.add(r.get("outcome"))
             if r.get("model_key") is not None:
                 model_keys.add(r["model_key"])
+            canon_keys.add(r["key"])
             if r["viol"]:
+                viol_sigs.update((c, w) for c, w, _ in r["viol"])
                 ctx.add_violations(h, r["viol"])
             key = r["key"] if merge else core.digest(h)
             if key in seen:
@@ -84,6 +88,8 @@ def explore(
         stats["max_depth_completed"] = level
         frontier = nxt
     stats["model_states"] = len(model_keys)
+    stats["_keys"] = canon_keys
+    stats["_viol_sigs"] = viol_sigs
     return stats
 
 
